@@ -326,3 +326,22 @@ theorem sampleToChain_none (ch sv cv : List Int) (i : Nat) :
   · intro h; rw [h]
 
 end Maps
+
+namespace Maps
+
+/-- the m-th selected cycle is the cycle named by subset index m -/
+theorem selected_cycleOf (valids : List Bool) (m : Nat) (hm : m < valids.count true) :
+    (selected (subsetVector valids))[m]? = some (cycleOf (subsetVector valids) m) := by
+  have hlen : (selected (subsetVector valids)).length = valids.count true :=
+    selectedFrom_subsetFrom_length 0 0 valids
+  have hm' : m < (selected (subsetVector valids)).length := by omega
+  have h1 := List.getElem?_eq_getElem hm'
+  have h2 := selectedFrom_subsetFrom_getElem? 0 0 valids m _ h1
+  rw [h1]
+  have : cycleOf (subsetVector valids) m = (selected (subsetVector valids))[m] := by
+    unfold cycleOf whereEq subsetVector
+    simp only [Nat.zero_add] at h2
+    rw [h2]; rfl
+  rw [this]
+
+end Maps
